@@ -70,12 +70,27 @@ def sample_histories(cfgname, num, depth, us_file, scratch, seed, parts=4):
                 if p not in seen:
                     seen.add(p)
                     d = json.loads(p)
-                    if d['ui'] == TWINS_UI and any(h['op'] == 'run' and len(h['req']) != 1 for h in d['hist']):
-                        continue     # 1, 1.0 and True are equal in Python: one call must not request two of them
+                    if d['ui'] == TWINS_UI:
+                        # 1, 1.0 and True are equal in Python: one call must not request two of them -- a call of the sampled
+                        # history asks for the first task of its request only (the trace is judged on the calls as made)
+                        for h in d['hist']:
+                            if h['op'] == 'run' and len(h['req']) > 1:
+                                h['req'] = h['req'][:1]
                     out.append((d['ui'] - 1, d['hist']))
     out.sort(key=lambda x: json.dumps(x))
     random.Random(seed).shuffle(out)
-    return out[:num]
+    # stratified by universe: the simulation visits the universes very unevenly (the twins universe made 2 % of the
+    # sampled histories), so the sample takes them in turn
+    by_u: dict = {}
+    for x in out:
+        by_u.setdefault(x[0], []).append(x)
+    picked, k = [], 0
+    while len(picked) < num and any(by_u.values()):
+        for ui in sorted(by_u):
+            if by_u[ui] and len(picked) < num:
+                picked.append(by_u[ui].pop())
+        k += 1
+    return picked
 
 
 def validate(traces, scratch, par=harness.NPROC):
